@@ -94,6 +94,10 @@ def errKindStr : ErrKind → String
   | .write => "write" | .logfile => "logfile" | .flush => "flush"
 
 def apply (s : St) (op : Op) (now : Nat) (fl : Faults) : St × String :=
+  -- date-only format (fmt 4): a name stands for a whole day, so the model is handed the clock
+  -- truncated to the day (equal names ⇔ equal stamps); sound for the configurations generated
+  -- with it (no age criterion finer than a day, no restarts)
+  let now := if s.spec.fmt = 4 then now / 1000000 * 1000000 else now
   let (st', r) := Flw.step s.st op now fl
   let lt := if st'.linkGen ≠ s.st.linkGen then
       (match st'.link with | none => "-" | some n => textToHex (render s.spec n))
